@@ -361,7 +361,8 @@ pub fn run_nearest_map(l: &[i128]) -> Vec<i128> {
         pm.draw_pixmap(ox, oy, src.as_ref(), &pp, Transform::identity(), None);
     } else {
         let mut paint = Paint::default();
-        paint.shader = Pattern::new(src.as_ref(), spread, FilterQuality::Nearest, 1.0, Transform::from_translate(ox as f32, oy as f32));
+        let (tx, ty) = if kind == 2 { (ox as f32 * 0.5, oy as f32 * 0.5) } else { (ox as f32, oy as f32) };
+        paint.shader = Pattern::new(src.as_ref(), spread, FilterQuality::Nearest, 1.0, Transform::from_translate(tx, ty));
         paint.blend_mode = BlendMode::Source;
         paint.anti_alias = false;
         pm.fill_rect(Rect::from_xywh(0.0, 0.0, w as f32, h as f32).unwrap(), &paint, Transform::identity(), None);
